@@ -9,6 +9,10 @@ A case is a JSON-able dict:
   byweekday: None | [[wd, n], ...]   (n = 0: plain weekday)
   style: how the arguments are spelled (bare int for 1-tuples, int vs weekday object) -- not
          part of the canonical rule, only exercises the constructor's input conversions.
+  wkst_default: True -> `wkst` is NOT passed to rrule() (default path: calendar.firstweekday()); the case's
+         `wkst` field then holds calendar.firstweekday() for the model / specification.
+  zone (DST class only, see dst_case / evaluate_dst): POSIX TZ string of the start's tzinfo; `until` is then an
+         aware UTC datetime and the case is compared through the naive twin of the rule.
 """
 import datetime
 import warnings
@@ -40,7 +44,8 @@ def build(case):
     kw["dtstart"] = start
     kw["interval"] = case["interval"]
     wk = case["wkst"]
-    kw["wkst"] = R.weekdays[wk] if (style & 1 and 0 <= wk <= 6) else wk
+    if not case.get("wkst_default"):
+        kw["wkst"] = R.weekdays[wk] if (style & 1 and 0 <= wk <= 6) else wk
     if case.get("count") is not None:
         kw["count"] = case["count"]
     u = case.get("until")
@@ -89,13 +94,18 @@ def _on_alarm(signum, frame):
     raise ImplTimeout()
 
 
-IMPL_TIMEOUT = 10.0
+# Watchdog of the REAL implementation.  Generous on purpose: the model has already terminated within its fuel for
+# every case that gets here, a normal case takes milliseconds, the slowest legitimate ones (sub-daily rules that
+# scan a day per pass) well under a second; on a loaded shared machine a fixed 10 s limit produced spurious
+# differences.  Beyond the limit the outcome is STALL ('T'): counted, listed in the evidence, never compared --
+# and the run fails closed if stalls exceed the stated fraction (check_C01.THRESHOLDS).
+IMPL_TIMEOUT = 60.0
 
 
 def run_impl(case):
     """-> dict(phase, status 'L'|'X'|'R'|'T', exn, items, extra); extra lists whole-second / tzinfo
-    breaches; 'T' = no answer within IMPL_TIMEOUT seconds although the model terminated within
-    its fuel (watchdog against an implementation that scans without end)"""
+    breaches; 'T' = STALL: no answer within IMPL_TIMEOUT seconds although the model terminated within
+    its fuel"""
     import signal
     old = signal.signal(signal.SIGALRM, _on_alarm)
     signal.setitimer(signal.ITIMER_REAL, IMPL_TIMEOUT)
@@ -386,6 +396,11 @@ def rand_case(rnd, malformed=False):
         case["count"] = rnd.choice([1, 2, 3, 10, 40])
         case["until"] = cap_until(case, rnd)
     case["N"] = rnd.choice([1, 2, 5, 10, 20, 40, 60, 60])
+    if rnd.random() < 0.05:
+        # the default path: wkst is not passed, rrule uses calendar.firstweekday()
+        import calendar
+        case["wkst_default"] = True
+        case["wkst"] = calendar.firstweekday()
     return case
 
 
@@ -418,7 +433,7 @@ def case_key(case):
 
 
 # ------------------------------------------------------------------ evaluation of one case
-ENTRY_MODEL, ENTRY_SPEC, ENTRY_WF, ENTRY_DAYOK, ENTRY_WEEK = 0, 1, 2, 3, 4
+ENTRY_MODEL, ENTRY_SPEC, ENTRY_WF, ENTRY_DAYOK, ENTRY_WEEK, ENTRY_XWF = 0, 1, 2, 3, 4, 5
 FUEL_PROBE = [40, 80, 150, 400, 800, 800, 800]       # model loop passes allowed without a cap
 FUEL_RUN = [80, 150, 300, 900, 1500, 1500, 1500]    # ... with the UNTIL cap in place
 SPEC_FUEL = 4000
@@ -488,12 +503,20 @@ def relocate_to_end_of_time(case, rnd):
     case["until"] = None
 
 
-def prepare(case, oracle, rnd):
+# At most this fraction of a random chunk may be relocated to the end of time (audit 5.d: without a cap a quarter
+# of the random stream ended up at year ~9999 and lost its boundary year / UNTIL shape); the rules beyond the cap
+# -- rules that never produce a candidate, on which the real generator would scan to year 9999 -- are skipped and
+# counted as "skipped:never-matching-beyond-relocation-cap".
+RELOCATION_CAP = 0.10
+
+
+def prepare(case, oracle, rnd, budget=None):
     """Make sure the real implementation will stop quickly on this case: probe the model with a
     small fuel; if it runs out add an UNTIL cap; if it still runs out (a rule that never produces
     a candidate never reaches the UNTIL test) move the start next to year 9999, where the scan ends
-    by the MAXYEAR stop; otherwise the case is skipped.
-    -> model result dict, or None when skipped"""
+    by the MAXYEAR stop -- for at most RELOCATION_CAP of the chunk; otherwise the case is skipped.
+    budget = {"seen": cases so far in this chunk, "relocated": relocations so far}
+    -> (model result dict | None when skipped, skip reason | None)"""
     f = case["freq"]
     if not 0 <= f <= 6:
         f = 0
@@ -505,33 +528,61 @@ def prepare(case, oracle, rnd):
         return decode_result(r)
     m = run(FUEL_PROBE[f])
     if m["status"] != "F":
-        return m
+        return m, None
     if m.get("timeout"):
-        return None
+        return None, "model-timeout"
     if case.get("until") is None:
         case["until"] = cap_until(case, rnd, periods=rnd.randint(1, MAX_PERIODS[f] // 2))
         case["relocated"] = "until-cap"
         m = run(FUEL_RUN[f])
         if m["status"] != "F":
-            return m
+            return m, None
         if m.get("timeout"):
-            return None
+            return None, "model-timeout"
+    if budget is not None and budget["relocated"] + 1 > RELOCATION_CAP * max(budget["seen"], 20):
+        return None, "never-matching-beyond-relocation-cap"
     relocate_to_end_of_time(case, rnd)
     case["relocated"] = "end-of-time"
+    if budget is not None:
+        budget["relocated"] += 1
     m = run(FUEL_RUN[f])
     if m["status"] == "F":
+        return None, "model-timeout" if m.get("timeout") else "model-out-of-fuel-at-end-of-time"
+    return m, None
+
+
+# ------------------------------------------------------------------ verdict against the specification
+# What is accepted, explicitly (the evidence quotes this text):
+#  * status L (first N taken): the N items equal the first N of the specified sequence;
+#  * status X (exhausted): the items equal the whole specified sequence, which is exhausted too;
+#  * ValueError is accepted ONLY "when built or when first iterated", i.e. before anything was yielded, and only
+#    when the specified sequence is empty (a rule that can never match) -- or, for a rule outside the RFC value
+#    grammar (extended domain: spec_xwf but not spec_wf), even when the remaining members could match (the
+#    constructor may reject an out-of-grammar argument);
+#  * a ValueError after something was yielded, any other exception class, any missing or extra instant is a
+#    difference (a listed OPEN finding may then match it; nothing else is tolerated);
+#  * STALL ('T', no answer of the real generator within IMPL_TIMEOUT although the model terminated) and an
+#    out-of-fuel / timed-out specification are INCONCLUSIVE: counted per class, bounded by thresholds.
+TOLERANCE_TEXT = (
+    "ValueError accepted only before the first yielded item (constructor or first next()) and only when the "
+    "specified sequence is empty, or -- outside the RFC value grammar (spec_xwf and not spec_wf) -- as a rejection "
+    "of the argument; ValueError after a yielded item, any other exception, any missing/extra instant = "
+    "difference; STALL / out-of-fuel specification = inconclusive (thresholds)")
+
+
+def spec_verdict(i, s, extended=False):
+    """compare implementation observation i with specification result s.
+    -> None (agree) | 'inconclusive' | 'stall' | description of the disagreement"""
+    if i["status"] == "T":
+        return "stall"
+    n = len(i["items"])
+    # the exception class and the out-of-grammar rejection do not depend on the specified sequence
+    if i["status"] == "R" and i["exn"] != 1:
+        return "raises %s (only ValueError is allowed)" % (i["exn"],)
+    if i["status"] == "R" and n == 0 and extended:
         return None
-    return m
-
-
-def spec_verdict(i, s):
-    """compare implementation observation i with specification result s (rule inside spec_wf).
-    -> None (agree) | 'inconclusive' | description of the disagreement"""
     if s["status"] == "F":
         return "inconclusive"
-    n = len(i["items"])
-    if i["status"] == "T":
-        return None
     if i["status"] == "L":
         if s["items"][:n] != i["items"] or len(s["items"]) < n:
             return "first %d occurrences differ" % n
@@ -543,43 +594,64 @@ def spec_verdict(i, s):
     # raised
     if i["exn"] != 1:
         return "raises %s (only ValueError is allowed)" % (i["exn"],)
-    if s["items"] != i["items"] or s["status"] != "X":
-        return "raises ValueError although the rule has further occurrences"
+    if n > 0:
+        if s["items"][:n] != i["items"]:
+            return "raises ValueError after %d occurrences that differ from the specification" % n
+        if s["items"] != i["items"] or s["status"] != "X":
+            return "raises ValueError after %d occurrences although the rule has further occurrences" % n
+        return "raises ValueError after yielding all %d occurrences (instead of stopping)" % n
+    if extended:
+        return None
+    if s["items"] or s["status"] != "X":
+        return "raises ValueError although the rule has occurrences"
     return None
 
 
+def first_week_start(case):
+    """ordinal of the first day of the WKST-week that contains the start (may be < 1)"""
+    s = case["start"]
+    o = datetime.date(s["y"], s["m"], s["d"]).toordinal()
+    wd = (o + 6) % 7
+    return o - (wd - case["wkst"]) % 7
+
+
 def week_before_year1(case):
-    """WEEKLY + BYSETPOS whose first WKST-week begins before 0001-01-01: the positions of that week
-    would count days that datetime cannot represent -- outside the specification's domain (model vs
-    implementation only; the loop theorem carries the same hypothesis 1 <= ws0)."""
+    """WEEKLY + BYSETPOS whose first WKST-week begins before 0001-01-01 (finding F-C01-year1-setpos-week; the
+    loop theorems carry the complementary hypothesis 1 <= ws0)."""
     if case["freq"] != 2 or not case.get("bysetpos"):
         return False
-    s = case["start"]
     try:
-        o = datetime.date(s["y"], s["m"], s["d"]).toordinal()
+        return first_week_start(case) < 1
     except (ValueError, OverflowError):
         return False
-    wd = (o + 6) % 7
-    return o - (wd - case["wkst"]) % 7 < 1
+
+
+def last_week_start(wkst):
+    """ordinal of the first day of the WKST-week that contains 9999-12-31"""
+    wd = (MAXORD + 6) % 7
+    return MAXORD - (wd - wkst) % 7
 
 
 def in_proved_family(case):
-    """STATISTIC ONLY (mirrors RRStripThm.coarse_guard_all / RRSubSpAll.sfam_sa, without the fuel bound):
-    is a rule of the specification's domain covered by one of the loop theorems?"""
+    """STATISTIC ONLY, an approximation from the rule alone (mirrors RRFullTop.full_guard / RRSubSpAll.sfam_sa
+    WITHOUT their n-dependent bounds: the number of passes a run makes is not known here; WEEKLY rules that start
+    in 9999, whose runs reach the cut-off last week, and BYEASTER rules that start after 4090 are counted as NOT
+    covered): is a rule of the specification's domain covered by one of the loop theorems?"""
     if any(abs(n) > 53 for n in (case.get("byweekno") or [])):
         return False
     f = case["freq"]
     if case.get("byeaster") is not None:
-        # RRFullTop.full_guard (easter_range): coarse FREQ, years inside C19's range (the bound
-        # on the number of passes is approximated by the start year)
         return f <= 3 and 1584 <= case["start"]["y"] <= 4090 and \
             not (f == 2 and week_before_year1(case))
     if f == 2:
-        return not week_before_year1(case)
+        return not week_before_year1(case) and case["start"]["y"] < 9999
     return True        # YEARLY, MONTHLY, DAILY: every rule; sub-daily: every rule (rset's RRSubSpAll)
 
 
 def evaluate(case, oracle, model=None):
+    """-> impl, model, spec observations + the verdicts.  domain: 'grammar' (spec_wf), 'extended' (spec_xwf only:
+    never-matching time members / BYMONTHDAY 0), 'outside' (model vs implementation only), or 'domain-timeout'
+    (the domain test itself timed out: counted, not compared with the specification)."""
     a = encode(case)
     if model is None:
         f = case["freq"] if 0 <= case["freq"] <= 6 else 0
@@ -587,13 +659,133 @@ def evaluate(case, oracle, model=None):
         model = {"status": "F", "phase": -1, "exn": 0, "items": [], "timeout": True} if mr == "TIMEOUT" \
             else decode_result(mr)
     impl = run_impl(case)
-    wf = oracle.call(ENTRY_WF, a) == [1] and not week_before_year1(case)
+    w = oracle.call(ENTRY_WF, a)
+    if w == "TIMEOUT":
+        domain = "domain-timeout"
+    elif w == [1]:
+        domain = "grammar"
+    else:
+        x = oracle.call(ENTRY_XWF, a)
+        domain = "domain-timeout" if x == "TIMEOUT" else ("extended" if x == [1] else "outside")
     spec = None
     sv = None
-    if wf:
+    if domain in ("grammar", "extended"):
         sr = oracle.call(ENTRY_SPEC, a + [case["N"], SPEC_FUEL])
         spec = {"status": "F", "phase": -1, "exn": 0, "items": [], "timeout": True} if sr == "TIMEOUT" \
             else decode_result(sr)
-        sv = spec_verdict(impl, spec)
-    return {"impl": impl, "model": model, "wf": wf, "spec": spec, "spec_verdict": sv,
-            "model_agrees": same_obs(impl, model) if model["status"] != "F" else None}
+        sv = spec_verdict(impl, spec, extended=(domain == "extended"))
+    if impl["status"] == "T":
+        agrees = None
+    else:
+        agrees = same_obs(impl, model) if model["status"] != "F" else None
+    return {"impl": impl, "model": model, "wf": domain == "grammar", "domain": domain, "spec": spec,
+            "spec_verdict": sv, "model_agrees": agrees}
+
+
+# ------------------------------------------------------------------ DST-zone start with a UTC UNTIL
+# RFC 5545 says: when DTSTART carries a time zone, UNTIL is given in UTC.  rrule compares `res > until` as aware
+# datetimes, i.e. as UTC instants with the start's zone offset varying over the year.  The Coq model works on the
+# start's wall clock with a constant offset, so this class is compared THROUGH THE NAIVE TWIN of the rule: the model
+# (and, inside its domain, the specification) enumerates the wall-clock sequence of the rule without UNTIL, the
+# harness cuts it at the first member whose aware value (same tzinfo object, fold=0 as rrule produces it) is later
+# than the UTC UNTIL, and the real rrule with the zone-aware start and the UTC UNTIL must yield exactly that.
+DST_ZONES = ["EST5EDT,M3.2.0,M11.1.0", "CET-1CEST,M3.5.0,M10.5.0/3", "AEST-10AEDT,M10.1.0,M4.1.0/3",
+             "NZST-12NZDT,M9.5.0,M4.1.0/3"]
+
+
+def dst_case(rnd):
+    """a rule with a start in a DST zone (POSIX TZ string, evaluated by dateutil.tz.tzstr: no tz database) and an
+    UNTIL in UTC; years 1990..2040, placed with preference around the two transitions of the year"""
+    for _ in range(50):
+        case = rand_case(rnd)
+        if case["start"]["kind"] == "date":
+            continue
+        s = case["start"]
+        s["kind"] = "naive"
+        s.pop("off", None)
+        s.pop("utc", None)
+        s["y"] = rnd.randint(1990, 2040)
+        if rnd.random() < 0.6:
+            s["m"], s["d"] = rnd.choice([(3, 1), (3, 8), (3, 25), (10, 1), (10, 25), (11, 1), (4, 1), (9, 20)])
+        case["until"] = None
+        if case.get("count") is None and rnd.random() < 0.3:
+            case["count"] = rnd.choice([1, 3, 10, 40])
+        case["zone"] = rnd.choice(DST_ZONES)
+        f = case["freq"]
+        p = rnd.randint(1, MAX_PERIODS[f])
+        secs = p * case["interval"] * PERIOD_SECS[f] + rnd.choice([0, 0, 1, -1, 3599, -3600, 7200])
+        base = datetime.datetime(s["y"], s["m"], s["d"], s["H"], s["M"], s["S"])
+        u = base + datetime.timedelta(seconds=min(secs, 40 * 366 * 86400))
+        case["until_utc"] = [u.year, u.month, u.day, u.hour, u.minute, u.second, rnd.choice([0, 0, 1, 999999])]
+        return case
+    return None
+
+
+def evaluate_dst(case, oracle):
+    """-> None (agree) | 'inconclusive' | (description, expected, got).  See the comment above."""
+    import signal
+    from dateutil import rrule as R
+    from dateutil import tz
+    twin = dict(case)
+    uy = case["until_utc"]
+    # the twin gets a naive UNTIL two days after the UTC UNTIL (offsets are below one day), only to bound the
+    # model's scan; everything beyond the real UNTIL is cut below by the aware comparison
+    cap = datetime.datetime(uy[0], uy[1], uy[2], uy[3], uy[4], uy[5]) + datetime.timedelta(days=2)
+    twin["until"] = {"kind": "naive", "y": cap.year, "m": cap.month, "d": cap.day, "H": cap.hour, "M": cap.minute,
+                     "S": cap.second, "us": 0}
+    a = encode(twin)
+    f = case["freq"]
+    N = case["N"]
+    mr = oracle.call(ENTRY_MODEL, a + [N, FUEL_RUN[f]])
+    if mr == "TIMEOUT":
+        return "inconclusive"
+    model = decode_result(mr)
+    if model["status"] not in ("L", "X"):
+        return "inconclusive"          # out of fuel / raises: the twin is not a usable reference
+    zone = tz.tzstr(case["zone"])
+    until = datetime.datetime(uy[0], uy[1], uy[2], uy[3], uy[4], uy[5], uy[6], tzinfo=tz.tzutc())
+    expected, cut = [], False
+    for code in model["items"]:
+        o, sod = divmod(code, 86400)
+        d = datetime.date.fromordinal(o)
+        x = datetime.datetime(d.year, d.month, d.day, sod // 3600, sod // 60 % 60, sod % 60, tzinfo=zone)
+        if x > until:
+            cut = True
+            break
+        expected.append(code)
+    exhausted = cut or model["status"] == "X"
+    twin["until"] = None
+    freq, kw, start = build(twin)
+    kw["dtstart"] = start.replace(tzinfo=zone)
+    kw["until"] = until
+    old = signal.signal(signal.SIGALRM, _on_alarm)
+    signal.setitimer(signal.ITIMER_REAL, IMPL_TIMEOUT)
+    try:
+        with warnings.catch_warnings():
+            warnings.simplefilter("ignore")
+            try:
+                rule = R.rrule(freq, **kw)
+                got, status = [], "L"
+                it = iter(rule)
+                try:
+                    while len(got) < N:
+                        x = next(it)
+                        if x.microsecond != 0 or x.tzinfo is not zone:
+                            return ("yielded value with microseconds or foreign tzinfo: %r" % (x,), expected, got)
+                        got.append(wall(x))
+                except StopIteration:
+                    status = "X"
+            except Exception as ex:
+                return ("raises %s" % type(ex).__name__, expected, [])
+    except ImplTimeout:
+        return "stall"
+    finally:
+        signal.setitimer(signal.ITIMER_REAL, 0)
+        signal.signal(signal.SIGALRM, old)
+    if status == "L":
+        if got != expected[:N] or len(expected) < N:
+            return ("first %d occurrences differ from the naive twin cut at the UTC UNTIL" % len(got), expected, got)
+        return None
+    if not exhausted or got != expected:
+        return ("sequence differs from the naive twin cut at the UTC UNTIL", expected, got)
+    return None
